@@ -3,8 +3,11 @@ package sx
 import (
 	"encoding/json"
 	"go/types"
+	"math/big"
 	"net/url"
 	"reflect"
+
+	"verif/engine/smt"
 )
 
 // bytesOf returns the concrete bytes of a []byte engine value.
@@ -166,6 +169,21 @@ func registerNative(p *Program) {
 			if b, ok := x.T.Underlying().(*types.Basic); ok && b.Kind() == types.String {
 				out, _ := json.Marshal(s)
 				return Tuple{bytesToEngine(out), Iface{}}
+			}
+		}
+		if bs, ok := x.V.(*BStr); ok {
+			// a string of plain ASCII letters and digits encodes as itself between quotes
+			c := m.Ctx
+			var cs []*smt.Term
+			for _, b := range bs.B {
+				t := m.intTerm(b)
+				cs = append(cs, c.Or(c.InRange(t, big.NewInt('a'), big.NewInt('z')), c.InRange(t, big.NewInt('A'), big.NewInt('Z')), c.InRange(t, big.NewInt('0'), big.NewInt('9'))))
+			}
+			if m.Branch(c.And(cs...), "json.Marshal-plain-string") {
+				out := []Value{uint64('"')}
+				out = append(out, bs.B...)
+				out = append(out, uint64('"'))
+				return Tuple{out, Iface{}}
 			}
 		}
 		unsupported("json.Marshal of %v", x.T)
